@@ -62,3 +62,12 @@ for _rnd, _tier in ((0, "quick"), (1, "thorough")):
       cbmc_flags=["--unwind", "100", "--unwinding-assertions"], timeout=300, cost=30,
       functions=["mmd_export_footnote_list_html"], callees={"pad/stack_peek_index/mmd_export_token_tree_html": "body", "DString": "ghost sink", "srand/rand": "uninterpreted ghost function R(seed) (real libc in the native replay)"},
       native={"repo": _LIBSRC}, assumptions=[NOFAIL, "rand() after srand(s) is a function of s only (uninterpreted R) with a non-negative result (the one __CPROVER_assume in the rand stub; C standard: 0..RAND_MAX)"], min_obligations=20)
+
+# ---- (2b) the call site of a footnote uses the same anchor function (PAIR_BRACKET_FOOTNOTE arm of the real writer switch)
+for _rnd in (0, 1):
+    U("anchor_footnote_call" + ("_random" if _rnd else ""), ["C10"], "h_footnote_call", ["C10/call.c"], ["html.c", "stack.c"], plain=True, lib=("lib/ds_sink.c",), kind="bounded",
+      defines=["-DRANDOM=%d" % _rnd, "-DSINK_CAP=128", "-DI18N_DISABLED", "-DSINK_NUM_GHOST"], bounds={"token": "one PAIR_BRACKET_FOOTNOTE", "notes used before<=": 6, "unwind": 100},
+      cbmc_flags=["--unwind", "100", "--unwinding-assertions"], timeout=600, cost=40,
+      functions=["mmd_export_token_html (arm PAIR_BRACKET_FOOTNOTE)"], callees={"footnote_from_bracket": "contract stub (its contract: unit used_footnote_from_bracket)", "DString": "ghost sink", "srand/rand": "uninterpreted ghost function R(seed)"},
+      native=None, min_obligations=20, nobody_ok=[],
+      assumptions=[NOFAIL, "rand() after srand(s) is a function of s only (uninterpreted R), result >= 0", "compiled with the repository's own -DI18N_DISABLED switch (the LC() string table costs 600k SAT variables per arm)"])
